@@ -30,8 +30,37 @@ FINDING_DEV = {
     "KF-C02-06": "Html!NestedTableRepeated",
     "KF-C02-07": "Epub!TableTextDropped",
     "KF-C02-08": "Rtf!DeletedLeaks",
-    "KF-C02-09": "Odg!NotesInText",
+    "KF-C02-10": "Xlsx!UnnamedHeaderPlaceholder",
 }
+
+MULTI = {"deck": ["pptx", "odp", "odg"], "book": ["xlsx", "ods"],
+         "pages": ["pdf", "txt", "md", "csv", "tsv", "json", "rtf"]}
+
+
+def gen_units(ctx, kind, max_units):
+    cfg = f'SPECIFICATION Spec\nCONSTANTS Kind = "{kind}"\n MaxUnits = {max_units}\n'
+    dump = ctx.scratch / f"docgen2-{kind}-{max_units}.dump"
+    r = run_tlc("DocGen2", cfg, scratch=ctx.scratch, dump=dump, heap="8g")
+    ctx.ev.tlc(f"DocGen2 Kind={kind} MaxUnits={max_units}: multi-unit shapes", r)
+    shapes = sorted((from_tla(s["units"]) for s in iter_dump(dump)), key=lambda b: json.dumps(b))
+    if len(shapes) != r.distinct:
+        raise MachineryError(f"DocGen2 dump {len(shapes)} != {r.distinct}")
+    return shapes
+
+
+def multi_docs(ctx, rng, quick_cap=350):
+    """Decks / workbooks / paged documents from DocGen2 (all up to 2 units; 3 units sampled in quick)."""
+    from ..docrun import number_units
+    docs = []
+    for kind in ("deck", "book", "pages"):
+        shapes = gen_units(ctx, kind, 3 if kind != "deck" or ctx.thorough else 2)
+        if not ctx.thorough and len(shapes) > quick_cap:
+            small = [s for s in shapes if len(s) <= (1 if kind == "deck" else 2)]
+            rest = [s for s in shapes if s not in small]
+            rng.shuffle(rest)
+            shapes = small + rest[: quick_cap - len(small)]
+        docs += [number_units(kind, sh) for sh in shapes]
+    return docs
 
 
 def gen_shapes(ctx, max_blocks, rich):
@@ -113,7 +142,16 @@ def run(ctx):
         hdr = [["r", nxt]] if k % 3 == 0 else []
         ftr = [["r", nxt + 1]] if k % 3 == 1 else []
         docs.append(flow_doc(blocks, hdr, ftr))
+    mdocs = multi_docs(ctx, rng)
     jobs = [{"doc": d, "fmt": f} for d in docs for f in FLOW_FORMATS if expressible(d, f)]
+    for d in mdocs:
+        for f in MULTI[d["kind"]]:
+            if f == "odg":      # a drawing has no speaker notes: same pages without the notes
+                d2 = dict(d, slides=[dict(s, notes=[]) for s in d["slides"]])
+                jobs.append({"doc": d2, "fmt": f})
+            else:
+                jobs.append({"doc": d, "fmt": f})
+    docs = docs + mdocs
     ctx.log(f"{len(docs)} documents, {len(jobs)} (document, format) extractions")
     obs = run_jobs(jobs)
     traces = []
@@ -126,14 +164,14 @@ def run(ctx):
         traces.append({"id": f"{j['fmt']}:{k}", "hdr": hdr, "raw": o.get("full_raw"),
                        "ev": [{"a": "Text", **o["text"]}]})
         if o["text"]["obs"]:
-            ev.nontrivial((j["fmt"], json.dumps(j["doc"]["blocks"])))
+            ev.nontrivial((j["fmt"], json.dumps(hdr["doc"]["units"])))
     for t in traces[:: max(1, len(traces) // 6)]:
         ev.sample({"fmt": t["hdr"]["fmt"], "blocks": t["hdr"]["doc"]["units"][0]["blocks"], "observed": t["ev"][0]})
 
     def describe(t, e):
         return (f"get_full_text() of a generated {t['hdr']['fmt']} document violates main-text fidelity: "
                 f"tokens observed {e.get('obs')} sep {e.get('sep')} residue {e.get('residue')}; "
-                f"body {json.dumps(t['hdr']['doc']['units'][0]['blocks'])[:300]}")
+                f"units {json.dumps([u['blocks'] for u in t['hdr']['doc']['units']])[:300]}")
 
     validate_with_findings(ctx, "DocTrace", traces, FINDING_DEV, describe,
                            lambda t: f"{t['hdr']['fmt']} extractor text walk")
